@@ -1582,14 +1582,20 @@ func runOracle(o *Out, r *rand.Rand, rg *rig, thorough bool) {
 
 type recStore struct {
 	storage.MockStorage
-	puts []kvEntry
+	puts   []kvEntry
+	radius *uint256.Int // what the store advertises (nil: the maximum, as a fresh store does)
 }
 
 func (s *recStore) Put(contentKey []byte, contentId []byte, content []byte) error {
 	s.puts = append(s.puts, kvEntry{clone(contentKey), clone(content)})
 	return s.MockStorage.Put(contentKey, contentId, content)
 }
-func (s *recStore) Radius() *uint256.Int { return s.MockStorage.Radius() }
+func (s *recStore) Radius() *uint256.Int {
+	if s.radius != nil {
+		return s.radius
+	}
+	return s.MockStorage.Radius()
+}
 func (s *recStore) reset() {
 	s.puts = nil
 	s.MockStorage.Db = map[string][]byte{}
